@@ -194,6 +194,56 @@ def Cookie.parseBytes (D : DateCodec) (src : Bytes) : Except CkErr Cookie :=
     if !validCookieValue kv.2 then .error .invalidValue
     else ckApplyAttrs D { key := removeNewLines kv.1, value := removeNewLines kv.2 } (ps.map ckSplitKV)
 
+/-! ### a Cookie OBJECT over its life time (reuse, pooling): what every mutator leaves behind
+
+The Go struct also has scratch buffers (bufK, bufV); the model has none: every observable result is a function of the
+ten value fields above.  `parseInto` is ParseBytes as a state transformer — the object is Reset first, and on an error
+the fields assigned so far stay. -/
+
+def ckApplyAttrsSt (D : DateCodec) : Cookie → List (Bytes × Bytes) → Cookie × Option CkErr
+  | c, [] => (c, none)
+  | c, kv :: rest =>
+    match ckApplyAttr D c kv with
+    | .ok c' => ckApplyAttrsSt D c' rest
+    | .error e => (c, some e)
+
+/-- Cookie.ParseBytes on an existing object: resulting fields and the error, if any -/
+def Cookie.parseInto (D : DateCodec) (src : Bytes) : Cookie × Option CkErr :=
+  match ckPieces src with
+  | [] => ({}, some .noCookies)
+  | p :: ps =>
+    let kv := ckSplitKV p
+    if !validCookieValue kv.2 then ({}, some .invalidValue)
+    else ckApplyAttrsSt D { key := removeNewLines kv.1, value := removeNewLines kv.2 } (ps.map ckSplitKV)
+
+/-- operations on one Cookie object -/
+inductive CkObjOp
+  | setKey (b : Bytes) | setValue (b : Bytes) | setDomain (b : Bytes) | setPath (b : Bytes)
+  | setMaxAge (n : Int) | setExpire (t : Option Nat) | setHTTPOnly (b : Bool) | setSecure (b : Bool)
+  | setSameSite (m : SameSite) | setPartitioned (b : Bool)
+  | reset                       -- Reset, ReleaseCookie + AcquireCookie
+  | parse (src : Bytes)         -- Parse / ParseBytes / ResponseHeader.Cookie
+  | copyFrom (src : Cookie)     -- CopyTo(src)
+  | serialise                   -- Cookie / String / AppendBytes / WriteTo: no effect on the fields
+
+def Cookie.applyObj (D : DateCodec) (c : Cookie) : CkObjOp → Cookie
+  | .setKey b => c.setKey b
+  | .setValue b => c.setValue b
+  | .setDomain b => c.setDomain b
+  | .setPath b => c.setPath b
+  | .setMaxAge n => c.setMaxAge n
+  | .setExpire t => c.setExpire t
+  | .setHTTPOnly b => c.setHTTPOnly b
+  | .setSecure b => c.setSecure b
+  | .setSameSite m => c.setSameSite m
+  | .setPartitioned b => c.setPartitioned b
+  | .reset => {}
+  | .parse src => (Cookie.parseInto D src).1
+  | .copyFrom src => src
+  | .serialise => c
+
+def Cookie.runObj (D : DateCodec) (c : Cookie) (ops : List CkObjOp) : Cookie := ops.foldl (Cookie.applyObj D) c
+
 /-! ### request cookies -/
 
 /-- RequestHeader.SetCookie: key and value go through initHeaderValueString and (since the fix) removeSemicolons,
